@@ -561,8 +561,9 @@ def run(ctx):
         vlib.log("E2: the server process died after %d recorded runs: %s at %s (%s)" % (len(records), crash["what"], crash["at"], crash["fn"]))
         m = re.match(r"(\d+) (\d+) (\d+)", "%d %d 0" % (len(records), sum(1 for r in records if r.get("hung"))))
     nruns = int(m.group(1))
-    if nruns < (20 if not thorough else 200) and not crash:
-        raise vlib.Infra("E2 recorded only %d runs" % nruns)
+    too_few = nruns < (20 if not thorough else 200) and not crash
+    if nruns == 0:
+        raise vlib.Infra("E2 recorded no run")
     races = parse_races(out)
     vlib.log("E2: %d runs (%d with a hang) in %.1fs; race reports: %d distinct (%s)" % (
         nruns, int(m.group(2)), wall, len(races), dict(collections.Counter(r["cls"] for r in races))))
@@ -680,6 +681,10 @@ def run(ctx):
         "the exhaustive part is the Attach.tla design check",
         "race reports touching Hub.numTopics, Topic.perUser/owner read by the hub, Session.uid/background are recorded as information only (not in the property's list)",
     ]
+    if too_few and not [f for f in ctx.failures if vlib.match_known(ctx.known, f) is None]:
+        # a short run that shows nothing is no evidence; a short run whose monitors fail on the real observations is a verdict
+        # (a defect that makes requests hang eats the time budget)
+        raise vlib.Infra("E2 recorded only %d runs" % nruns)
     samples = []
     if vectors:
         sv = [v for v in vectors if v["k"] == "sess" and len(v["ev"]) > 6][:1] + [v for v in vectors if v["k"] == "snap" and v["round"] > 0][:1]
